@@ -79,15 +79,15 @@ PROPERTIES = {
         ],
     },
     "C10": {
-        "modules": ["contracts.core_models", "contracts.c02_frontend", "contracts.c10_frontend"],
+        "modules": ["contracts.core_models", "contracts.c02_frontend", "contracts.c10_frontend", "contracts.c10_subset"],
         "level": "other",
-        "explanation": "PROVED from the real source (tracer state abstracted to the calls the code makes): the comparison dispatch (nested single_compare: reflected method with swapped operands, 6 operators x implemented / NotImplemented on either side), the binary operator dispatch (nested overloaded_operator: lhs.__op__ first, rhs.__rop__ when that is missing or NotImplemented, rejection when neither applies), all()/any() over mixed constant / run-time elements (and/or yield the truth value; arrangements up to 3 elements), list and dict comprehensions with 0-2 conjunctive conditions over up to 3 elements (symbolic condition values). BOUNDED (labelled, never counted as proved): FunctionDefinition.bind_args against the CPython call itself for every signature shape (<= 2 positional-only, <= 2 positional-or-keyword, <= 2 keyword-only parameters, optional *args / **kwargs, all default patterns, functions and bound methods) and every call shape (<= n+1 positional arguments, <= 3 keywords incl. a foreign name): same binding, or a rejection exactly when CPython raises TypeError.",
+        "explanation": "PROVED from the real source (tracer state abstracted to the calls the code makes): the comparison dispatch (nested single_compare: reflected method with swapped operands, 6 operators x implemented / NotImplemented on either side), the binary operator dispatch (nested overloaded_operator: lhs.__op__ first, rhs.__rop__ when that is missing or NotImplemented, rejection when neither applies), all()/any() over mixed constant / run-time elements (and/or yield the truth value; arrangements up to 3 elements), list and dict comprehensions with 0-2 conjunctive conditions over up to 3 elements (symbolic condition values). BOUNDED (labelled, never counted as proved): FunctionDefinition.bind_args against the CPython call itself for every signature shape (<= 2 positional-only, <= 2 positional-or-keyword, <= 2 keyword-only parameters, optional *args / **kwargs, all default patterns, functions and bound methods) and every call shape (<= n+1 positional arguments, <= 3 keywords incl. a foreign name): same binding, or a rejection exactly when CPython raises TypeError. Also PROVED: zero-argument super() binds to the __class__ cell of the defining class and the first argument (method of a middle class on an instance of a subclass). Also BOUNDED: PrepareAst._split_target against the CPython assignment statement (<= 5 targets, star anywhere or absent, sources of 0..7 elements: same split, rejection exactly on ValueError) and _ScopeBase._capture_env against LEGB (closure cell before module global before builtin, every placement of one free name).",
         "assumptions": COMMON_ASSUME + [
             "bind_args only moves argument objects (it never inspects them): distinct marker objects per argument make each shape's comparison complete; shapes beyond the bound are not covered",
-            "NOT decided: name classification and closure capture (_ClassifyNames, ScopeRef), classes / inheritance / super() / properties / __call__ emulation, starred unpacking, subscripts, constant if / for / if-expressions, isinstance / type checks -- the remaining branches of the 1400-line apply_impl dispatcher and the whitelist of intrinsic builtins have no contract yet; 'all generated programs' is not approached by per-function contracts",
+            "NOT decided: name classification (_ClassifyNames, ScopeRef), classes / inheritance / properties / __call__ emulation, subscripts, constant if / for / if-expressions, isinstance / type checks -- the remaining branches of the 1400-line apply_impl dispatcher and the whitelist of intrinsic builtins have no contract yet; 'all generated programs' is not approached by per-function contracts",
             "a rejection (any exception) where CPython would compute a value is allowed by the statement and not reported",
         ],
-        "extra": ["contracts.c10_bind.bind_sweep"],
+        "extra": ["contracts.c10_bind.bind_sweep", "contracts.c10_subset.subset_sweep"],
         "canaries": [
             {"name": "comprehension-conjunction", "contract": "cohdl._compiler.frontend._prepare_ast:PrepareAst.apply_impl", "case": "listcomp:2-elements,2-ifs", "file": "cohdl/_compiler/frontend/_prepare_ast.py",
              "old": "                    if not ifexpr_result:\n                        excluded = True\n\n                    bound_expr.append(ifexpr_converted)\n\n                if not excluded:\n                    result_expr.append(expr)", "new": "                    excluded = not ifexpr_result\n                    pass\n\n                    bound_expr.append(ifexpr_converted)\n\n                if not excluded:\n                    result_expr.append(expr)"},
